@@ -59,10 +59,10 @@ def run(ctx):
             P.append((gen.tt(op(16, i2a(w), q(i2a(1)))), gen.tt(deep)))
     lines = []
     for p, e, tag in [(p, e, "") for p, e in P] + pool:
-        f = runlib.pick_flags(r, tag, 0.12)
-        m = r.choice([0, 0, 11000000000, r.randrange(1, 10 ** 5)])
-        kw = {"enc": r.randrange(1, 10 ** 6)} if r.random() < 0.3 else {}
-        lines.append(run_line(p, e, f=f, m=m, **kw))
+        for f in runlib.flag_variants(r, tag, 0.12):
+            m = r.choice([0, 0, 11000000000, r.randrange(1, 10 ** 5)])
+            kw = {"enc": r.randrange(1, 10 ** 6)} if r.random() < 0.3 else {}
+            lines.append(run_line(p, e, f=f, m=m, **kw))
     d = vlib.run_impl("run", lines, "default")
     nf = vlib.run_impl("run", lines, "nofast")
     ins = vlib.run_impl("run", lines, "instr")
